@@ -20,6 +20,8 @@ def expr(e):
     return e.get('op',k)+'('+','.join(expr(a) for a in e.get('args') or [])+(';'+expr(e.get('target')) if k=='binop' else '')+')'
 def stmts(l,ind):
     for s in l or []:
+        if s['k']=='decl':
+            o=s['obj']; print(' '*ind+'decl',o['k'],name(o['name']),'abs='+o['abs'], data(o['data']) if o.get('data') else ''); continue
         print(' '*ind+s['k'], expr(s.get('e')) if s.get('e') else '', '-> '+expr(s.get('t')) if s.get('t') else '')
         stmts(s.get('body'),ind+2)
         if s.get('haselse'): print(' '*ind+'else'); stmts(s.get('else'),ind+2)
